@@ -11,7 +11,7 @@ import tempfile
 import zlib
 
 from engine import REPO, gen_states, pool_map
-from readers import read_text, run_cli, split_gfa, write_text, workdir, lines_of
+from readers import read_out, read_text, run_cli, split_gfa, write_text, workdir, lines_of
 
 
 def idnum(nid):
@@ -79,7 +79,7 @@ def parse_out(paths_gfa, paths_csv):
             links.append({"a": l["a"], "ao": l["ao"], "b": l["b"], "bo": l["bo"], "ov": l["ov"], "tags": l["tags"]})
     csv = []
     for p in paths_csv:
-        for line in lines_of(open(p).read()):
+        for line in lines_of(read_out(p)):
             f = line.split(",")
             if f[0] == "Name":
                 continue
